@@ -146,6 +146,12 @@ func (c RawConfiguration) handleCorrectableCall(ctx context.Context, corr *Corre
 		}
 	}
 
+	if state.expectedReplies == 0 {
+		// no node was targeted, so there is nothing to wait for
+		corr.set(resp, clevel, QuorumCallError{cause: Incomplete, errors: errs, replies: len(replies)}, true)
+		return
+	}
+
 	for {
 		select {
 		case r := <-state.replyChan:
